@@ -15,7 +15,7 @@ From Coq Require Import List Ascii String ZArith NArith Bool Lia Classical_Prop.
 From Anthem Require Import Base.ISet Syntax.Fol Syntax.Asp Sem.Domain Sem.Sat Sem.AspRef
   Model.Outline Model.External Model.PrivRec Model.TauStar Model.Completion Model.ExternalFull
   Proofs.ExtendAll Proofs.EnvFacts Proofs.StrongOk Proofs.TightnessOk Proofs.CompletionShape Proofs.CompletionOk Proofs.FagesBridge
-  Proofs.FagesTauStar Proofs.PrivateUnique Proofs.C02Ok Proofs.HeadPred Proofs.HeadPredPipeline.
+  Proofs.FagesTauStar Proofs.PrivateUnique Proofs.C02Ok Proofs.HeadPred Proofs.HeadPredPipeline Proofs.MissingOutputs.
 Import ListNotations.
 Open Scope string_scope.
 Open Scope list_scope.
@@ -77,17 +77,16 @@ Proof.
     rewrite (cs_shape_no_head _ (constraints_cs_shape G defs cs Hc HG c Hcin)). reflexivity.
 Qed.
 
-(* the empty completed definitions of the missing OUTPUT predicates (/repo 70e6ace) are
+(* the empty completed definitions of the missing OUTPUT predicates (/repo 70e6ace, 18b2e85) are
    public: they never are Assumption formulas *)
-Lemma assumptions_missing_outputs public outs D :
+Lemma assumptions_missing_outputs public outs occ D :
   incl outs public ->
-  assumptions_of (control_translate public (D ++ missing_output_definitions outs D))
+  assumptions_of (control_translate public (D ++ missing_output_definitions outs occ D))
   = assumptions_of (control_translate public D).
 Proof.
   intros Hi. unfold control_translate. rewrite !assumptions_of_control_translate, filter_app.
-  rewrite (filter_none (is_private_def public) (missing_output_definitions outs D)); [apply app_nil_r|].
-  intros f Hf. unfold missing_output_definitions in Hf. apply in_map_iff in Hf. destruct Hf as [q [<- Hq]].
-  unfold iset_diff in Hq. apply filter_In in Hq. destruct Hq as [Hq _].
+  rewrite (filter_none (is_private_def public) (missing_output_definitions outs occ D)); [apply app_nil_r|].
+  intros f Hf. apply missing_outputs_only_occurring in Hf. destruct Hf as [q [-> [Hq _]]].
   unfold is_private_def, empty_definition. rewrite head_predicate_complete_definition. cbn [fst].
   rewrite atomic_formula_from_pred. apply negb_false_iff.
   destruct (memb_spec pred_dec q public) as [_|Hn]; [reflexivity|]. exfalso. exact (Hn (Hi q Hq)).
@@ -233,7 +232,8 @@ Proof.
   { intros f Hf. unfold rp_theory in Hf. apply in_map_iff in Hf. destruct Hf as [f0 [<- Hf0]].
     apply rule_like_rp. eapply tau_star_rule_like_all; eauto. }
   cbv zeta in Htr. set (outs := ug_output_predicates (et_user_guide t)) in *.
-  assert (Hcl : forall f, In f (D ++ missing_output_definitions outs D) -> classified f).
+  set (occ := task_occurring_predicates t) in *.
+  assert (Hcl : forall f, In f (D ++ missing_output_definitions outs occ D) -> classified f).
   { intros f Hf. apply in_app_or in Hf. destruct Hf as [Hf|Hf].
     - eapply completion_all_classified; eauto.
     - eapply missing_outputs_classified; eauto. }
@@ -241,7 +241,7 @@ Proof.
   { intros q Hq. unfold public, ug_public_predicates. apply in_iset_extend. right. exact Hq. }
   assert (E : tvalid FI M (assumptions_of (control_translate public th)) <->
               tvalid FI M (assumptions_of (control_translate public D))).
-  { injection Htr as <-. rewrite <- (assumptions_missing_outputs public outs D Hop).
+  { injection Htr as <-. rewrite <- (assumptions_missing_outputs public outs occ D Hop).
     destruct (et_simplify t); [|reflexivity].
     rewrite (assumptions_simplified fuel public _ Hcl). unfold tvalid. apply simp_theory_sound. }
   rewrite E. clear E.
